@@ -243,8 +243,8 @@ where
         let mut max_edge = self.min.clone();
         let mut n_bins = 0;
         while max_edge <= self.max {
-            max_edge = max_edge + self.bin_width.clone();
             n_bins += 1;
+            max_edge = self.min.clone() + T::from_usize(n_bins).unwrap() * self.bin_width.clone();
         }
         n_bins
     }
